@@ -17,7 +17,7 @@ use std::ops::Range;
 pub static INFO: PropInfo = PropInfo {
     id: "C16",
     level: "fault_enumeration",
-    rule: "enumerated sub-spaces (exhaustive: true refers to these only): (E1) all 4096 subsets of a 12-element universe of packet sequence numbers, in 3 numberings, as ack sets: codec round trip of the range list, and fed through process_packet (ascending and one seeded shuffled order) to a fresh endpoint whose emitted Ack packet, decoded, must equal the recorded set (hook) and the fed set; and, the reading side, handed as an Ack to an endpoint that has packets base..base+11 in flight (one reliable message each), after which exactly the messages of the packets in the subset must be released (hook); (E2) every netcode packet kind x sequence-length class 0..8 bytes (sequence 0, 1, 2^8k-1, 2^8k) x payload length {0,1,1299,1300}: decode(encode(v)) = (sequence, v) with the crate's codec. Sampled: (S1) random renet packets of every kind with every field on varint boundaries (63/64, 16383/16384, 2^30, 2^62-1), 0..n messages of 0..1200 bytes, sorted non-adjacent range lists of 1..64 ranges incl. single-element ranges and gaps of exactly one: decode(encode(v)) == v; (S2) random and mutated byte strings: if decode(b) = v then decode(encode(v)) = v; (S3) sparse sequence sets of up to 90 ranges fed to an endpoint: emitted Ack == recorded set, subset of the fed set, <= 64 ranges, equal to the fed set whenever it never needed more than 64 ranges; beyond 64 ranges it must contain the highest sequence fed and the one fed last (unless below everything recorded) and, for ascending or descending feeds, equal exactly the 64 highest ranges of the fed set; (S4) connect tokens with 1..32 IPv4/IPv6 addresses (ordinary ones and the special forms of both families: 0.0.0.0, broadcast, loopback, IPv4-mapped and IPv4-compatible IPv6, ::, ::1, link-local, multicast, NAT64, all-ones, uniformly random; ports 0 and 65535) through write/read and seal/open (built through the hook codec, and by ConnectToken::generate with IPv6 scope ids / flow labels set on some addresses), and mutated token bytes through read -> write -> read. Non-trivial = a value with at least one multi-byte varint / non-empty body / >= 2 ranges / >= 2 addresses; distinct = distinct value fingerprints.",
+    rule: "enumerated sub-spaces (exhaustive: true refers to these only): (E1) all 4096 subsets of a 12-element universe of packet sequence numbers, in 3 numberings, as ack sets: codec round trip of the range list, and fed through process_packet (ascending and one seeded shuffled order) to a fresh endpoint whose emitted Ack packet, decoded, must equal the recorded set (hook) and the fed set; and, the reading side, handed as an Ack to an endpoint that has packets base..base+11 in flight (one reliable message each), after which exactly the messages of the packets in the subset must be released (hook); (E2) every netcode packet kind x sequence-length class 0..8 bytes (sequence 0, 1, 2^8k-1, 2^8k) x payload length {0,1,1299,1300}: decode(encode(v)) = (sequence, v) with the crate's codec. Sampled: (S1) random renet packets of every kind with every field on varint boundaries (63/64, 16383/16384, 2^30, 2^62-1), 0..n messages of 0..1200 bytes, sorted non-adjacent range lists of 1..64 ranges incl. single-element ranges and gaps of exactly one: decode(encode(v)) == v; (S2) random and mutated byte strings: if decode(b) = v then decode(encode(v)) = v; (S3) sparse sequence sets of up to 90 ranges fed to an endpoint: emitted Ack == recorded set, subset of the fed set, <= 64 ranges, equal to the fed set whenever it never needed more than 64 ranges; beyond 64 ranges it must contain the highest sequence fed and the one fed last (unless below everything recorded) and, for ascending or descending feeds, equal exactly the 64 highest ranges of the fed set; (S4) connect tokens with 1..32 IPv4/IPv6 addresses (ordinary ones and the special forms of both families: 0.0.0.0, broadcast, loopback, IPv4-mapped and IPv4-compatible IPv6, ::, ::1, link-local, multicast, NAT64, all-ones, uniformly random; ports 0 and 65535) through write/read (also through a reader that hands the bytes out in pieces of 1, 7/64/3/500, one random or six random sizes per call) and seal/open (built through the hook codec, and by ConnectToken::generate with IPv6 scope ids / flow labels set on some addresses), and mutated token bytes through read -> write -> read. Non-trivial = a value with at least one multi-byte varint / non-empty body / >= 2 ranges / >= 2 addresses; distinct = distinct value fingerprints.",
     assumptions: &["values 'the library can build' are generated within the limits the library itself enforces when sending (message <= 1200 bytes in a small packet, slice payload 1..1200, slice index < slice count <= 10^6, <= 64 ack ranges, packet <= 1300 bytes)"],
     gates: &[
         ("ack_subsets_enumerated", 4096),
@@ -778,6 +778,49 @@ fn tokens(ctx: &Ctx, out: &mut Outcome, run_seed: u64, r: &mut Rng) {
                 run_seed,
                 "token",
             );
+        }
+    }
+    // the same bytes through a reader that hands them out in pieces (a stream that delivers the token in several
+    // segments, a small-buffer reader): `read` takes any io::Read, a short read is not the end of the data
+    {
+        struct Chunked<'a> {
+            data: &'a [u8],
+            pos: usize,
+            sizes: Vec<usize>,
+            k: usize,
+        }
+        impl std::io::Read for Chunked<'_> {
+            fn read(&mut self, buf: &mut [u8]) -> std::io::Result<usize> {
+                let want = self.sizes[self.k % self.sizes.len()].max(1);
+                self.k += 1;
+                let n = want.min(buf.len()).min(self.data.len() - self.pos);
+                buf[..n].copy_from_slice(&self.data[self.pos..self.pos + n]);
+                self.pos += n;
+                Ok(n)
+            }
+        }
+        let sizes: Vec<usize> = match r.below(4) {
+            0 => vec![1],
+            1 => vec![7, 64, 3, 500],
+            2 => vec![r.urange(1, 40)],
+            _ => (0..6).map(|_| r.urange(1, 1200)).collect(),
+        };
+        let mut rd = Chunked { data: &bytes, pos: 0, sizes: sizes.clone(), k: 0 };
+        out.count("tokens_read_through_a_chunked_reader");
+        match watchdog::catch(|| ConnectToken::read(&mut rd)) {
+            Ok(Ok(t)) if t == m.token => {}
+            other => {
+                viol(
+                    ctx,
+                    out,
+                    "C16/token-roundtrip/public/chunked-reader",
+                    "connect tokens round-trip through write/read",
+                    format!("token of {} bytes does not read back equal from a reader that returns {:?} bytes per call: {:?}", bytes.len(), sizes, other.map(|r| r.map(|_| "different value").map_err(|e| format!("{:?}", e))).map_err(|c| c.msg)),
+                    json!({"addresses": n, "chunk_sizes": sizes}),
+                    run_seed,
+                    "token",
+                );
+            }
         }
     }
     // a token from the library's own generator; IPv6 server addresses may carry a scope id / flow label
